@@ -6,7 +6,7 @@ CONSTANTS
   Emit = "edge"
   MaxBatch = 1
   AsWritten = FALSE
-VIEW View
+VIEW ViewLast2
 INVARIANTS UniqueKeys IndexAgreement RestoreFidelity RestoreShrinks RBACParentsExist
 ACTION_CONSTRAINT EmitEdge
 CHECK_DEADLOCK FALSE
